@@ -7,7 +7,7 @@ MANIFEST = dict(
     note="Trusted: Coq kernel; hand-written model validated by the correspondence check; extraction (ExtrOcamlBasic only); harness + hooks; sequential schedules at request/sweep granularity, one shard (see evidence trusted_base). Lock-free key table (CAS protocol) and PriorityMutex are modelled as atomic, not verified.",
 )
 PROFILES = [("core", 0.2), ("count", 0.25), ("waiters", 0.15), ("reentrant", 0.1), ("expiry", 0.08), ("sched", 0.12), ("sched2", 0.1), ("many", 0.02)]
-MONITORS = ["C01", "PANIC"]
+MONITORS = ["C01", "C01H", "PANIC"]
 
 
 def boundary(ctx, run):
